@@ -596,6 +596,12 @@ func runServerScenario(t *testing.T, sc *srvScenario, pickFn func(n int) int, sk
 					if op.Kind == "callbackbg" { // a context that can never end: only a reply or the server's stop ends the call
 						cctx, cancel = context.Background(), func() {}
 					}
+					if op.Kind == "callback" && strings.HasSuffix(tag, "2") {
+						// a context that is cancelled WITH A CAUSE: its own error is still context.Canceled, and
+						// that is what Callback must return when it ends first
+						cc, ccancel := context.WithCancelCause(context.Background())
+						cctx, cancel = cc, func() { ccancel(errors.New("caller lost interest")) }
+					}
 					r.hmu.Lock()
 					r.cbCancel[tag] = cancel
 					r.hmu.Unlock()
@@ -690,7 +696,9 @@ func runServerScenario(t *testing.T, sc *srvScenario, pickFn func(n int) int, sk
 		if sc.Restart && r.Status != nil {
 			c2, s2 := newVPair()
 			r.srv.Start(s2)
-			c2.Send([]byte(reqCall(777, "c777", "ok")))
+			// the new run starts from a clean slate: ids that were in use (or in flight) in the first
+			// run are as good as a fresh one
+			c2.Send([]byte(reqBatch(reqCall(1, "c771", "ok"), reqCall(2, "c772", "ok"), reqCall(3, "c773", "ok"), reqCall(4, "c774", "ok"), reqCall(5, "c775", "ok"), reqCall(900, "c776", "ok"), reqCall(901, "c778", "ok"), reqCall(777, "c777", "ok"))))
 			for i := 0; i < 50; i++ {
 				synctest.Wait()
 				if gs := r.openGates(); len(gs) > 0 {
